@@ -121,6 +121,8 @@ class NetCheck(check.Check):
 class C02(NetCheck):
     pid = "C02"
     profile = "mixed"
+    quick = dict(cases=2500, budget=90, timeout=120)
+    thorough = dict(cases=60000, budget=1200, timeout=300)
 
     def gen_options(self, r):
         # emphasis: small arena caches and Dedicated SRAM
@@ -147,6 +149,8 @@ class C02(NetCheck):
 
 class C03(NetCheck):
     pid = "C03"
+    quick = dict(cases=2500, budget=90, timeout=120)
+    thorough = dict(cases=50000, budget=1200, timeout=300)
 
     def profile_for(self, r):
         return r.choice(["mixed", "stripes", "lut", "cpu_mix"])
@@ -154,6 +158,8 @@ class C03(NetCheck):
 
 class C04net(NetCheck):
     pid = "C04"
+    quick = dict(cases=1000, budget=80, timeout=120)
+    thorough = dict(cases=20000, budget=1200, timeout=300)
     n_swarm = {"quick": 6, "thorough": 16}
     extremes = {"quick": True, "thorough": True}
 
@@ -163,6 +169,8 @@ class C04net(NetCheck):
 
 class C12(NetCheck):
     pid = "C12"
+    quick = dict(cases=4000, budget=90, timeout=120)
+    thorough = dict(cases=80000, budget=1200, timeout=300)
     n_swarm = {"quick": 1, "thorough": 2}
 
     def profile_for(self, r):
